@@ -13,7 +13,7 @@ pub fn catalogue(tier: Tier) -> Vec<(Spec, u32)> {
     use Transport::*;
     let thorough = tier == Tier::Thorough;
     let d = tier.pick(2, 3);
-    let d_small = tier.pick(3, 4);
+    let d_small = tier.pick(2, 4);
     let mut v: Vec<(Spec, u32)> = Vec::new();
     let ts: Vec<Transport> = if thorough { vec![Unbounded, Bounded(1), Bounded(2), Bounded(16)] } else { vec![Unbounded, Bounded(1)] };
     let versions2: Vec<Vec<u32>> = if thorough { vec![vec![20, 20], vec![14, 20], vec![17, 19], vec![16, 18]] } else { vec![vec![20, 20], vec![14, 17]] };
@@ -61,6 +61,10 @@ pub fn catalogue(tier: Tier) -> Vec<(Spec, u32)> {
                         }
                         let dd = if n <= 2 { d_small } else { d };
                         v.push((p4_channels(*t, vec![20, if two { 14 } else { 20 }], two, cap, n, m_read, ChanVariant::Stream), dd));
+                        if m_read == n && n > cap {
+                            v.push((p4_channels(*t, vec![20, 20], two, cap, n, m_read, ChanVariant::StreamWatchClosed), d));
+                            v.push((p4_channels(*t, vec![20, 20], two, cap, n, m_read, ChanVariant::PingPongWatchClosed), d));
+                        }
                     }
                 }
             }
@@ -69,14 +73,28 @@ pub fn catalogue(tier: Tier) -> Vec<(Spec, u32)> {
             }
         }
     }
+    // drop duplicate instances (same program and parameters)
+    let mut seen = std::collections::BTreeSet::new();
+    v.retain(|(s, _)| seen.insert(format!("{} {}", s.name, s.params)));
     v
 }
 
 pub fn run(tier: Tier) -> ! {
     let rep = Reporter::new("C06", "taskmc", tier, "exploration");
     let samples = Samples::new(6);
-    let cat = catalogue(tier);
-    let budget = Duration::from_secs(tier.pick(50, 1500));
+    let mut cat = catalogue(tier);
+    // developer aids: TASKMC_ONLY=<substring of name+params>, TASKMC_BOUND=<n>
+    if let Ok(only) = std::env::var("TASKMC_ONLY") {
+        cat.retain(|(s, _)| format!("{} {}", s.name, s.params).contains(&only));
+    }
+    if let Ok(b) = std::env::var("TASKMC_BOUND") {
+        if let Ok(b) = b.parse::<u32>() {
+            for c in cat.iter_mut() {
+                c.1 = b;
+            }
+        }
+    }
+    let budget = Duration::from_secs(std::env::var("TASKMC_BUDGET").ok().and_then(|b| b.parse().ok()).unwrap_or(tier.pick(50, 1500)));
     let start = Instant::now();
     let executions = AtomicU64::new(0);
     let mut per = Vec::new();
